@@ -17,7 +17,7 @@ def gen_scenario(rng, big=False):
     kinds = []
     servers_udp, servers_tcp = [], []
     for i in range(n):
-        k = rng.choice(["udp_echo", "udp_client", "tcp_server", "tcp_client", "spawner", "fs", "fs", "uring"])
+        k = rng.choice(["udp_echo", "udp_client", "tcp_server", "tcp_client", "spawner", "racer", "fs", "fs", "uring"])
         kinds.append(k)
         if k == "udp_echo":
             servers_udp.append(i)
@@ -34,6 +34,8 @@ def gen_scenario(rng, big=False):
             h.update({"target": "n%d" % t, "n": rng.randrange(1, 4)})
         elif k == "spawner":
             h.update({"tasks": rng.randrange(2, 9)})
+        elif k == "racer":
+            h.update({"lanes": 3, "rounds": rng.randrange(6, 20)})
         elif k == "fs":
             h.update({"files": rng.randrange(2, 7), "rounds": rng.randrange(2, 4)})
         elif k == "uring":
@@ -51,8 +53,13 @@ def gen_scenario(rng, big=False):
             ctl.setdefault(str(min(nsteps - 1, k + rng.randrange(0, 12))), []).append(["bounce", h])
         elif n >= 2:
             a, b = rng.sample(range(n), 2)
-            name = rng.choice(["partition", "repair", "hold", "release", "partition_oneway", "repair_oneway"])
+            name = rng.choice(["partition", "repair", "hold", "hold", "release", "partition_oneway", "repair_oneway"])
             ctl.setdefault(str(k), []).append([name, a, b])
+            if name == "hold":      # un-park from the controller a little later, one way or another
+                k2 = min(nsteps - 1, k + rng.randrange(1, 15))
+                ctl.setdefault(str(k2), []).append([rng.choice(["release", "deliver_all", "deliver_first"]), a, b])
+                if rng.random() < 0.5:
+                    ctl.setdefault(str(min(nsteps - 1, k2 + rng.randrange(1, 6))), []).append(["release", a, b])
     return {"cfg": cfg, "nsteps": nsteps, "hosts": hosts, "ctl": ctl}
 
 
